@@ -17,7 +17,7 @@ let num : float num = {
   fadd = ( +. ); fsub = ( -. ); fmul = ( *. ); fdiv = ( /. );
   fopp = (fun x -> -. x); fabs = Float.abs; fsqrt = sqrt;
   fexp = exp; fsin = sin; fcos = cos; ftan = tan; facos = acos; fasin = asin; ftanh = tanh;
-  ferfc = Float.erfc; ffloor = floor; flog = log;
+  ferfc = Float.erfc; ffloor = floor; flog = log; flog10 = log10;
   fatan2 = Float.atan2; fpow = Float.pow; ffmod = Float.rem;
   flt = (fun (a : float) (b : float) -> a < b);
   fle = (fun (a : float) (b : float) -> a <= b);
